@@ -13,7 +13,7 @@
    The behaviour of a placeholder when USED (call time / finalize) is the gin machine's: see C11/C12 and
    the independent predicates of harness/props/c15.py. *)
 From Coq Require Import List String ZArith Bool Arith.
-From GinV Require Import Lib.Out Lib.PyStr Model.SelectorMap Model.Parser Model.Stmt Model.StmtSpec Proofs.StmtProofs Proofs.StmtProofs2.
+From GinV Require Import Lib.Out Lib.PyStr Model.SelectorMap Model.Parser Model.Stmt Model.StmtSpec Model.StmtEngine Proofs.StmtProofs Proofs.StmtProofs2 Proofs.StmtProofs3.
 Import ListNotations.
 Open Scope string_scope.
 Open Scope list_scope.
@@ -56,6 +56,18 @@ Theorem C15_uncovered_unknown_block_errors : forall env sk fname inc sc sel line
   apply_stmts env sk fname inc (SBlock sc sel line :: rest) s im ic = (s, SErr (SEOther "ValueError" [(fname, line)])).
 Proof. exact StmtProofs2.C15_uncovered_unknown_block_errors. Qed.
 
+(* whole-file form: the first uncovered unknown target stops the parse with a located ValueError, and the state is
+   exactly the one after the earlier groups and the earlier statements of the same group *)
+Theorem C15_first_unknown_is_ValueError : forall env fname gf s ts gs1 g gs3 pe pre sc sel arg v line post s0 im0 ic0 s1 im1 ic1,
+  settle (f_tokens gf) = POk ts ->
+  parse_groups 60 (f_oracle gf) false ts = (gs1 ++ g :: gs3, pe) -> no_includes (gs1 ++ g :: gs3) ->
+  consume env SkFalse fname no_inc gs1 s [] [] = (s0, SOk (im0, ic0)) ->
+  resolve_group s0 SkFalse fname g = SOk (pre ++ SBind sc sel arg v line :: post) ->
+  apply_stmts env SkFalse fname no_inc pre s0 im0 ic0 = (s1, SOk (im1, ic1)) ->
+  arg <> "" -> sm_matching (to_key sel) (t_reg s) = [] -> t_locked s = false ->
+  parse_config env SkFalse fname gf s = (s1, SErr (SEOther "ValueError" [(fname, line)])).
+Proof. exact StmtProofs3.C15_first_unknown_is_ValueError. Qed.
+
 (* references inside applied bindings *)
 Theorem C15_placeholder_kept : forall s sk scoped ev, should_skip s (last_slash scoped) sk = true ->
   make_reference s sk scoped ev = SOk (OT "Unk" [OS (last_slash scoped); OB ev]).
@@ -81,3 +93,4 @@ Print Assumptions C15_uncovered_unknown_block_errors.
 Print Assumptions C15_placeholder_kept.
 Print Assumptions C15_known_reference_resolved.
 Print Assumptions C15_unknown_reference_errors.
+Print Assumptions C15_first_unknown_is_ValueError.
